@@ -268,6 +268,9 @@ def features(spec):
     if s['consts']: f.add('const')
     if s['mcs']: f.add('M')
     if s['uu']: f.add('UU')
+    if s.get('uux'): f.add('UU-on-descendants')
+    if not top and not s.get('ph') and s['items'] and all(it['t'] == 'kid' for it in s['items']): f.add('structural-inner')
+    if top and not s.get('ph') and s['items'] and all(it['t'] == 'kid' for it in s['items']): f.add('structural')
     if s['rdu']: f.add('RDU')
     if s['wru']: f.add('WRU')
     if s['mport']: f.add('mport')
@@ -573,6 +576,17 @@ def run_case(ck, case, verbose=False, report=True):
 
 # ----------------------------------------------------------------------------------------------- generation of cases
 
+def pinned(tree, p):
+  """a component that survives the replacement of `p` orders blocks under `p` with an explicit U-U constraint (it would keep
+  the removed blocks, like the known findings parent_value_constraint / parent_M_constraint): not a replacement target"""
+  for n in range(len(p)):
+    anc = U.sub(tree, p[:n])
+    for a, b in anc.get('uux', []):
+      for r in (a, b):
+        q = tuple(p[:n]) + tuple(r[0])
+        if q[:len(p)] == tuple(p) or tuple(p)[:len(q)] == q: return True
+  return False
+
 def random_case(rng, g, idx):
   spec = g.spec(rng.randint(1, 3), rng.randint(1, 2), rng.choice([1, 2, 2, 3]))
   while not U.paths(spec):
@@ -580,7 +594,8 @@ def random_case(rng, g, idx):
   cur = spec
   steps = []
   for _ in range(rng.choice([1, 1, 2, 2, 3, 4])):
-    ps = U.paths(cur)
+    ps = [p for p in U.paths(cur) if not pinned(cur, p)]
+    if not ps: break
     phs = U.placeholders(cur)
     deep = [p for p in ps if len(p) >= 2 and '[' in p[-1]]       # list elements whose parent is not the top
     if deep and rng.random() < 0.3: path = list(rng.choice(deep))
